@@ -31,21 +31,21 @@ Inst(id, ver, k) == [id |-> id, ver |-> ver, schk |-> IF k = 0 THEN {} ELSE {[ci
 
 (* ---------------- profile "upd" ---------------- *)
 WebInstSets(r) ==
-  CASE r = 0 -> {{Inst("w1", 1, 0)}, {Inst("w1", 1, 2)}, {Inst("w2", 1, 0)}}
-    [] r = 1 -> {{Inst("w1", 1, 0)}, {Inst("w1", 1, 1)}, {Inst("w1", 1, 2)}, {Inst("w2", 1, 0)},
-                 {Inst("w1", 1, 1), Inst("w2", 1, 0)}}
-    [] OTHER -> {{Inst("w1", 1, k)} : k \in 0..2} \cup {{Inst("w1", 2, 0)}, {Inst("w2", 1, 0)}}
-                \cup {{Inst("w1", 1, k), Inst("w2", 1, 0)} : k \in 0..2}
+  CASE r = 0 -> {{Inst("w1", "1", 0)}, {Inst("w1", "1", 2)}, {Inst("w2", "1", 0)}}
+    [] r = 1 -> {{Inst("w1", "1", 0)}, {Inst("w1", "1", 1)}, {Inst("w1", "1", 2)}, {Inst("w2", "1", 0)},
+                 {Inst("w1", "1", 1), Inst("w2", "1", 0)}}
+    [] OTHER -> {{Inst("w1", "1", k)} : k \in 0..2} \cup {{Inst("w1", "2", 0)}, {Inst("w2", "1", 0)}}
+                \cup {{Inst("w1", "1", k), Inst("w2", "1", 0)} : k \in 0..2}
 NChkOpts(r) == IF r >= 2 THEN 0..2 ELSE 0..1
 AddrOpts(r) == IF r >= 2 THEN {A1, A2} ELSE {A1}
 NodeOpts(n, r) ==       \* {} = node absent from the snapshot, otherwise a singleton entry set
   {{}} \cup {{[node |-> n, addr |-> a, nchk |-> NChk(k), insts |-> S]} : a \in AddrOpts(r), k \in NChkOpts(r), S \in WebInstSets(r)}
 WebSnaps(r) == {x \cup y : x \in NodeOpts("n1", r), y \in NodeOpts("n2", r)}
-ApiNodeOpts(n) == {{}} \cup {{[node |-> n, addr |-> A1, nchk |-> NChk(k), insts |-> {Inst("a1", 1, 0)}]} : k \in 0..1}
+ApiNodeOpts(n) == {{}} \cup {{[node |-> n, addr |-> A1, nchk |-> NChk(k), insts |-> {Inst("a1", "1", 0)}]} : k \in 0..1}
 ApiSnaps == {x \cup y : x \in ApiNodeOpts("n1"), y \in ApiNodeOpts("n2")}
-P2Snaps == {{}, {[node |-> "n1", addr |-> A2, nchk |-> {}, insts |-> {Inst("w1", 1, 0)}]},
-            {[node |-> "n1", addr |-> A2, nchk |-> NChk(1), insts |-> {Inst("w1", 1, 2)}],
-             [node |-> "n2", addr |-> A2, nchk |-> {}, insts |-> {Inst("w1", 1, 0)}]}}
+P2Snaps == {{}, {[node |-> "n1", addr |-> A2, nchk |-> {}, insts |-> {Inst("w1", "1", 0)}]},
+            {[node |-> "n1", addr |-> A2, nchk |-> NChk(1), insts |-> {Inst("w1", "1", 2)}],
+             [node |-> "n2", addr |-> A2, nchk |-> {}, insts |-> {Inst("w1", "1", 0)}]}}
 
 Upd(p, svc, snap) == [t |-> "upd", peer |-> p, svc |-> svc, snap |-> snap]
 Lst(p, names) == [t |-> "list", peer |-> p, names |-> names, twin |-> TwinMap]
@@ -61,17 +61,17 @@ CmdsUpd(r) ==
 SeedUpd ==
   [nodes |-> {[peer |-> Local, node |-> "n1", addr |-> "10.0.0.9"], [peer |-> Local, node |-> "n2", addr |-> "10.0.0.9"],
               [peer |-> P2, node |-> "n1", addr |-> "10.0.0.8"]},
-   svcs  |-> {[peer |-> Local, node |-> "n1", id |-> "w1", name |-> "web", ver |-> 9],
-              [peer |-> Local, node |-> "n2", id |-> "a1", name |-> "api", ver |-> 9],
-              [peer |-> P2, node |-> "n1", id |-> "w1", name |-> "web", ver |-> 8],
-              [peer |-> P2, node |-> "n1", id |-> "a1", name |-> "api", ver |-> 8]},
+   svcs  |-> {[peer |-> Local, node |-> "n1", id |-> "w1", name |-> "web", ver |-> "9"],
+              [peer |-> Local, node |-> "n2", id |-> "a1", name |-> "api", ver |-> "9"],
+              [peer |-> P2, node |-> "n1", id |-> "w1", name |-> "web", ver |-> "8"],
+              [peer |-> P2, node |-> "n1", id |-> "a1", name |-> "api", ver |-> "8"]},
    chks  |-> {[peer |-> Local, node |-> "n1", cid |-> "nc", sid |-> "", st |-> "passing"],
               [peer |-> Local, node |-> "n1", cid |-> "w1c", sid |-> "w1", st |-> "passing"],
               [peer |-> P2, node |-> "n1", cid |-> "nc", sid |-> "", st |-> "critical"],
               [peer |-> P2, node |-> "n1", cid |-> "w1c", sid |-> "w1", st |-> "passing"]}]
 
 (* ---------------- profile "list" ---------------- *)
-Simple(svc, ns) == {[node |-> n, addr |-> A1, nchk |-> {}, insts |-> {Inst(InstId[svc], 1, 0)}] : n \in ns}
+Simple(svc, ns) == {[node |-> n, addr |-> A1, nchk |-> {}, insts |-> {Inst(InstId[svc], "1", 0)}] : n \in ns}
 CmdsList ==
        {Upd(P1, s, Simple(s, ns)) : s \in {"web", WSP, "api", ASP}, ns \in SUBSET {"n1", "n2"}}
   \cup {Upd(P2, "web", Simple("web", {"n1"})), Upd(P2, WSP, Simple(WSP, {"n1"}))}
@@ -79,8 +79,8 @@ CmdsList ==
   \cup {Lst(P2, {}), Lst(P2, {"web"})}
 SeedList ==
   [nodes |-> {[peer |-> Local, node |-> "n1", addr |-> "10.0.0.9"]},
-   svcs  |-> {[peer |-> Local, node |-> "n1", id |-> "w1", name |-> "web", ver |-> 9],
-              [peer |-> Local, node |-> "n1", id |-> "ap1", name |-> ASP, ver |-> 9]},
+   svcs  |-> {[peer |-> Local, node |-> "n1", id |-> "w1", name |-> "web", ver |-> "9"],
+              [peer |-> Local, node |-> "n1", id |-> "ap1", name |-> ASP, ver |-> "9"]},
    chks  |-> {}]
 
 (* ---------------- profile "exp" ---------------- *)
@@ -105,7 +105,8 @@ SeedRows == CASE Profile = "upd" -> SeedUpd [] Profile = "list" -> SeedList
               [] OTHER -> [nodes |-> {}, svcs |-> {}, chks |-> {}]
 
 Init == /\ st = Seed(EmptyCat, SeedRows)
-        /\ hist = <<[t |-> "seed", rows |-> SeedRows]>>
+        \* gw: the harness also gives the local cluster an ingress gateway with a wildcard listener
+        /\ hist = <<[t |-> "seed", rows |-> SeedRows, gw |-> (Profile = "list")]>>
 Next == /\ Len(hist) <= MaxDepth
         /\ \E c \in Cmds(Len(hist)) :
              /\ st' = Apply(st, c)
